@@ -151,8 +151,16 @@ def drive(rec):
             # probes whose bounds cannot contain the surface
             from chmpy.shape import SHT, promolecule_density_descriptor, stockholder_weight_descriptor
             els, pos = arrays(base["inner"])
-            for lo, hi in rec["probes"]:
-                d0 = g[0]
+            # a probe whose upper bound cuts the surface: in the direction of the largest radius the surface lies beyond the
+            # bound, so it cannot be found there and the descriptor must not be returned
+            import numpy as _np
+            rr = _np.array([s["r"] for s in t["radial"]], dtype=float) / 1e6
+            partial = []
+            if len(rr) and rr.max() > 1.25 * max(rr.min(), 0.3):
+                partial.append((0.15 if rec["kind"] == "stockholder" else 0.4, 0.9 * float(rr.max()), int(_np.argmax(rr))))
+            for lo, hi, di in [(a, b, 0) for a, b in rec["probes"]] + partial:
+                idx = _np.linspace(0, len(g) - 1, min(24, len(g))).astype(int)
+                d0 = g[idx[di]] if (lo, hi, di) in partial else g[0]
                 vals = [float(field((o + r * d0)[None, :])[0]) / iso for r in (lo, 0.5 * (lo + hi), hi)]
                 pr = {"flo": int(round(min(vals[0], 1000.0) * 1048576)), "fmid": int(round(min(vals[1], 1000.0) * 1048576)),
                       "fhi": int(round(min(vals[2], 1000.0) * 1048576)), "exc": ""}
